@@ -178,10 +178,14 @@ class _HeapRead(ast.NodeTransformer):
         self.heap = heap
 
     def visit(self, node):
+        if getattr(node, "_fz", False):
+            return node
         if isinstance(node, (ast.Subscript, ast.Attribute)) and isinstance(getattr(node, "ctx", None), ast.Load):
             t = U(node)
             if t in self.heap:
-                return copy.deepcopy(self.heap[t])
+                v = copy.deepcopy(self.heap[t])
+                v._fz = True
+                return v
         return super().visit(node)
 
 
@@ -271,7 +275,9 @@ class Summarizer:
                 env[name] = v
                 return v
             e = _Walrus(bind).visit(copy.deepcopy(_strip(e)))
-        r = self._inline_calls(subst(e, {k: v for k, v in env.items() if k not in ("__heap__", "__fx__")}), depth)
+        # a local holds the value it had when it was bound: what is substituted for it is marked, and the marked parts are not
+        # read again against the stores made since (``key = d["next"]; d["next"] += 1; return key`` returns the old value)
+        r = self._inline_calls(_sx._Sub({k: v for k, v in env.items() if k not in ("__heap__", "__fx__")}, mark=True).visit(copy.deepcopy(_strip(e))), depth)
         r = _Canon().visit(r)
         heap = env.get("__heap__")
         if heap:
@@ -374,6 +380,16 @@ class Summarizer:
             cur = env.get(st.target.id, ast.Name(id=st.target.id, ctx=ast.Load()))
             env[st.target.id] = ast.BinOp(left=cur, op=st.op, right=self._sub(st.value, env, depth))
             return [(env, conds)]
+        if isinstance(st, ast.AugAssign) and isinstance(st.target, (ast.Subscript, ast.Attribute)):
+            # ``place op= v`` is the store ``place = place op v``
+            ld = copy.deepcopy(st.target)
+            for n in ast.walk(ld):
+                if hasattr(n, "ctx"):
+                    n.ctx = ast.Load()
+            asg = ast.Assign(targets=[st.target], value=ast.BinOp(left=ld, op=st.op, right=st.value), lineno=st.lineno)
+            ast.copy_location(asg, st)
+            ast.fix_missing_locations(asg)
+            return self._stmt(asg, env, conds, done, depth, func)
         if isinstance(st, ast.For):
             un = self._unroll(st, env, conds, done, depth, func)
             if un is not None:
@@ -389,6 +405,21 @@ class Summarizer:
             return [(env, conds)]
         if isinstance(st, ast.With):
             return self._block(st.body, [(env, conds)], done, depth, func)
+        if isinstance(st, ast.Try) and not getattr(st, "finalbody", None):
+            # the body completes (atom ``__exc<line>__`` false), or a handler runs from the state before the ``try`` with the
+            # names the body assigns unknown (the point of failure is not known); handlers that fall through rejoin after it
+            atom = ast.Name(id=f"__exc{st.lineno}__", ctx=ast.Load())
+            out = self._block(list(st.body) + list(st.orelse), [(self._fork(env), conds + [(atom, False)])], done, depth, func)
+            assigned = sorted({n.id for b in st.body for n in ast.walk(b) if isinstance(n, ast.Name) and isinstance(n.ctx, ast.Store)})
+            for i, h in enumerate(st.handlers):
+                henv = self._fork(env)
+                for nm in assigned:
+                    henv[nm] = ast.Name(id=f"__try{st.lineno}_{nm}__", ctx=ast.Load())
+                if h.name:
+                    henv[h.name] = ast.Name(id=f"__caught{st.lineno}_{i}__", ctx=ast.Load())
+                hat = ast.Name(id=f"__exc{st.lineno}_{i}__", ctx=ast.Load())
+                out.extend(self._block(h.body, [(henv, conds + [(atom, True), (hat, True)])], done, depth, func))
+            return out
         if isinstance(st, ast.Expr) and isinstance(st.value, ast.Call) and (U(st.value.func) in self.effect_calls or "*" in self.effect_calls):
             c = st.value
             args = [self._sub(a, env, depth) for a in c.args]
@@ -397,6 +428,10 @@ class Summarizer:
             return [(env, conds)]
         if isinstance(st, (ast.FunctionDef, ast.AsyncFunctionDef, ast.ClassDef)):
             return [(env, conds)]  # a nested definition binds a name; calls to it are inlined through ``inline`` or stay symbolic
+        if isinstance(st, ast.Expr) and isinstance(st.value, (ast.Yield, ast.YieldFrom)) and self.effect_calls:
+            v = self._sub(st.value.value, env, depth) if st.value.value is not None else ast.Constant(None)
+            env.setdefault("__fx__", []).append(("yield", v, st))
+            return [(env, conds)]
         if isinstance(st, (ast.Pass, ast.Expr, ast.Assert, ast.Import, ast.ImportFrom)):
             if isinstance(st, ast.Expr) and isinstance(st.value, ast.Call) and isinstance(st.value.func, ast.Attribute) and isinstance(st.value.func.value, ast.Name):
                 # a method call on a tracked local (``digits.reverse()``): the value is wrapped so the mutation stays visible
